@@ -385,6 +385,9 @@ func (env *SpecEnv) locOf(x *SExpr) (keys []string, ref string, err error) {
 		}
 		return e.keysOfStorage(pt.Elem(), fv.Name(), fv.Type()), a.S, nil
 	case "idx", "slice":
+		if x.Op == "slice" && (x.Args[1] != nil || x.Args[2] != nil) {
+			return nil, "", fmt.Errorf("modifies %s: a bounded range is supported only in assumed contracts (the frame check works per backing array)", x)
+		}
 		a, err := env.eval(x.Args[0])
 		if err != nil {
 			return nil, "", err
@@ -395,6 +398,14 @@ func (env *SpecEnv) locOf(x *SExpr) (keys []string, ref string, err error) {
 		return e.keysOfType(a.T.Underlying().(*types.Slice).Elem(), true), a.sBase(), nil
 	case "un":
 		if x.Tok == "*" {
+			if x.Args[0].Op == "id" {
+				// *name for a captured or address-taken variable: its cell
+				if c, ok := env.vars["&"+x.Args[0].Tok]; ok && c.A == nil {
+					if pt, ok := c.T.Underlying().(*types.Pointer); ok {
+						return e.keysOfType(pt.Elem(), false), c.S, nil
+					}
+				}
+			}
 			a, err := env.eval(x.Args[0])
 			if err != nil {
 				return nil, "", err
